@@ -13,10 +13,10 @@
 EXTENDS Integers, Sequences, FiniteSets, TLC
 Topo == INSTANCE Topology          \* shared topology model: Reach (undirected reachability), MinOf, IsPartition
 
-(* Switches of the CODE MODEL (not of the property).  They describe the pinned tree; when a proposed fix is applied to *)
-(* /repo the corresponding line is changed here -- otherwise the conformance clauses report the model as stale.       *)
-ColRule   == "bus_minus_norefs"    \* run_bfswpf.py:140 as pinned  | "rank_nonroot" = with proposed fix C06_1
-ShiftRule == "all_trafos"          \* run_bfswpf.py:422 as pinned  | "tree_trafos"  = with proposed fix C06_2
+(* Switches of the CODE MODEL (not of the property).  They describe the tree as repaired by the two "fix:" commits    *)
+(* recorded in known_findings.jsonl; the alternatives are the pinned rules that produced the defects.               *)
+ColRule   == "rank_nonroot"        \* run_bfswpf.py: column of a bus = its rank among the non-root buses   | pinned: "bus_minus_norefs"
+ShiftRule == "tree_trafos"         \* run_bfswpf.py: angle rotation only across transformers of the tree   | pinned: "all_trafos"
 Ls2gInstalled  == TRUE             \* lightsim2grid importable (auxiliary.py:1313)
 NumbaInstalled == TRUE             \* numba importable (run_newton_raphson_pf.py:24-30)
 
@@ -249,7 +249,7 @@ Allowed(c, s) ==
   THEN (IF BfswMustSolve(c) THEN {"ok"} ELSE IF BfswApplicable(c) THEN {"ok", "not_converged"} ELSE Outcomes)
   ELSE Outcomes          \* "whenever it returns without raising": raising is outside the property for the other solvers
 \* a returned result must equal the reference ... except where "the solution" is not unique for the start point: a flat
-\* start 150 degrees away from the solution converges to the low-voltage solution (documented in run.py:104-105)
+\* start 150 degrees away from the solution converges to the low-voltage solution (run.py:111-112 documents this)
 Comparable(c, cva, s, hasRes) ==
   ~(Resolve(c, cva, s, hasRes).init_va = "flat" /\ cva /\ \E k \in DOMAIN c : ShiftOf(c[k]) # 0)
 
